@@ -94,3 +94,32 @@ Section Perm.
       rewrite IH; [reflexivity|]. pose proof (work_next_level (ti :: l)). simpl in *. lia.
   Qed.
 End Perm.
+(* corollaries for the level order: same members as pre-order, and without predicates all size-1 positions *)
+Theorem bfs_in_iff_pre prune filt n ti :
+  In ti (levels_from prune filt (size n) (direct_infos n)) <-> In ti (pre prune filt n).
+Proof.
+  split; intros H.
+  - eapply Permutation_in; [apply bfs_perm_pre|exact H].
+  - eapply Permutation_in; [apply Permutation_sym, bfs_perm_pre|exact H].
+Qed.
+
+Theorem bfs_visits_all ct n : wf_node ct n = true ->
+  length (levels_from (fun _ => false) (fun _ => true) (size n) (direct_infos n)) = size n - 1.
+Proof.
+  intros W. rewrite (Permutation_length (bfs_perm_pre (fun _ => false) (fun _ => true) n)).
+  now apply (visits_all ct).
+Qed.
+
+Theorem post_visits_all ct n : wf_node ct n = true ->
+  length (post (fun _ => false) (fun _ => true) n) = size n - 1.
+Proof.
+  intros W. rewrite (Permutation_length (post_perm_pre (fun _ => false) (fun _ => true) n)).
+  now apply (visits_all ct).
+Qed.
+
+(* the start node is never yielded, in any order *)
+Theorem no_self_post prune filt n ti : In ti (post prune filt n) -> size (ti_node ti) < size n.
+Proof. intros H. apply (pre_smaller prune filt). eapply Permutation_in; [apply post_perm_pre|exact H]. Qed.
+Theorem no_self_bfs prune filt n ti :
+  In ti (levels_from prune filt (size n) (direct_infos n)) -> size (ti_node ti) < size n.
+Proof. intros H. apply (pre_smaller prune filt). now apply bfs_in_iff_pre. Qed.
